@@ -211,7 +211,9 @@ def run(ctx):
                "mutation": what.get(pid, {}).get("what")}
         ctx.save_replay(pid + ".nano", rr["src"])
         ctx.violation("%s is accepted by the type checker but %s" % (pid, "; ".join(bad)), ctx.save_replay(pid + ".json", json.dumps(rep, indent=1)))
-    cov = dict(states=r1.distinct, transitions=r1.generated, traces_validated_against_impl=0, samples=samples or [{"note": "none"}],
+    from props import gx_part
+    gx_cov = gx_part.run_part(ctx, "C04")       # widened program universe: every accepted program must build and run on every engine
+    cov = dict(generator_exploration=gx_cov, states=r1.distinct, transitions=r1.generated, traces_validated_against_impl=0, samples=samples or [{"note": "none"}],
                evaluations=2 * stats["accepted"], distinct_nontrivial=len(seen), classes=dict(stats),
                rule="zoo of fragile constructs + limits, families, seeded generator programs, C05 mutants; a program counts when the real type checker accepts it; model: Sound invariant (WT => not stuck) evaluated by TLC on every job")
     return "model_checking", cov, ["acceptance is read from the front end's diagnostics of nano_virt; the documented faults are recognised by message class",
